@@ -118,7 +118,8 @@ def run(ctx):
         r = C.run_harness(ctx, ["tlgencheck", "-schemas", path, "-tlgen", tlgen, "-work", work, "-repo", C.REPO] + (SHIPPED if k == 0 else []),
                           timeout=3000)
         shutil.rmtree(work, ignore_errors=True)
-        rep = json.loads(r.stdout)
+        # the generator, run in-process, may print on its own: the report is the last line
+        rep = json.loads(r.stdout.strip().splitlines()[-1])
         tot["evaluations"] += rep["evaluations"]
         tot["schemas"] += len(scs)
         tot["packages"] += rep["extra"]["packages_compiled"]
